@@ -42,7 +42,7 @@ def parse_opts(s):
             opts['skip'] += w[len('skip='):].split(',')
         elif w.startswith('opaque='):
             opts['opaque_macros'] += w[len('opaque='):].split(',')
-        elif w in ('R29map', 'R29res'):
+        elif w in ('R29map', 'R29res', 'R32i'):
             opts['rules'].append(w)
         elif re.match(r'^R\d+$', w):
             opts['rules'].append(w)
